@@ -945,9 +945,10 @@ impl Monitor {
                     self.viol("C30", "C30.notify", &[("case", format!("completed-{case}")), ("notifications", n.to_string())], format!("completed SELFDESTRUCT of {c} (beneficiary {b}, balance {bal}) produced {n} notification(s)"));
                 } else {
                     let (nc, nb, nv) = rec.sd_in_step[0];
-                    // Cancun, pre-existing contract naming itself: nothing leaves the contract;
-                    // either its balance or zero is accepted as "the balance that left"
-                    let value_ok = nv == bal || (case == "cancun-self-target-preexisting" && nv.is_zero());
+                    // Cancun, pre-existing contract naming itself: the contract keeps its balance,
+                    // so the balance that left it is zero; in every other case the whole balance
+                    // leaves (to the beneficiary, or burned with the account)
+                    let value_ok = if case == "cancun-self-target-preexisting" { nv.is_zero() } else { nv == bal };
                     if nc != c || nb != b || !value_ok {
                         let what = if nc != c { "contract" } else if nb != b { "beneficiary" } else { "value" };
                         self.viol("C30", "C30.notify", &[("case", format!("wrong-{what}"))], format!("SELFDESTRUCT of {c} to {b} with balance {bal} reported as ({nc}, {nb}, {nv})"));
